@@ -92,16 +92,26 @@ func tokenizeStream(src io.Reader, normalize bool, dict *dictionary, updateDict 
 
 	var doc indexedDocument
 
-	isEOF := func(in error) bool {
-		return in == io.EOF || in == io.ErrUnexpectedEOF
+	// readFull fills buf from src like io.ReadFull, but reports the end of the
+	// stream as io.EOF even after a partial read. io.ReadFull reports that as
+	// io.ErrUnexpectedEOF, which cannot be told apart from a reader that itself
+	// fails with io.ErrUnexpectedEOF (a truncated compressed stream, say); such
+	// a failure must reach the caller like any other error.
+	readFull := func(buf []byte) (n int, err error) {
+		for n < len(buf) && err == nil {
+			var nn int
+			nn, err = src.Read(buf[n:])
+			n += nn
+		}
+		return n, err
 	}
 
 	// Read out the stream in chunks
 	for {
 		// Fill up the buffer with bytes to extract runes from
 		// idx is offset to hold any bytes left over from previous reads
-		n, err := io.ReadFull(src, rbuf[idx:])
-		if isEOF(err) {
+		n, err := readFull(rbuf[idx:])
+		if err == io.EOF {
 			// There are no more bytes to read, so we must now consume all bytes in the
 			// buffer.
 			tgt = idx + n
@@ -212,7 +222,7 @@ func tokenizeStream(src io.Reader, normalize bool, dict *dictionary, updateDict 
 		}
 
 		// Break out if we have consumed all read bytes
-		if isEOF(err) {
+		if err == io.EOF {
 			break
 		}
 
